@@ -154,7 +154,18 @@ func TestC01(t *testing.T) {
 					cands = append(cands, v)
 				}
 			}
-			for k := rapid.IntRange(1, 2).Draw(rt, "nStray"); k > 0 && len(cands) > 0; k-- {
+			var initNames []string
+			for name := range gg.initVals {
+				if !gg.shadowed[name] {
+					initNames = append(initNames, name)
+				}
+			}
+			sort.Strings(initNames)
+			for _, name := range initNames {
+				t := gg.initVals[name]
+				cands = append(cands, gv{name: name, shape: cloneInts(t.Shape()), dt: t.Dtype(), init: true})
+			}
+			for k := rapid.IntRange(1, 3).Draw(rt, "nStray"); k > 0 && len(cands) > 0; k-- {
 				v := rapid.SampledFrom(cands).Draw(rt, "strayName")
 				feed[v.name] = mkT(v.shape, smallF32s(rt, prod(v.shape), 2, "stray"))
 			}
